@@ -25,9 +25,17 @@ theorem section_of_regions {file : Bytes} {T : Tables} {L : Layout}
     refine List.mem_cons_of_mem _ (List.mem_cons_of_mem _ (List.mem_filterMap.mpr ⟨s, hs, ?_⟩))
     simp [hq]
 
-/-- the extended regions: the base ones and the array section when it is in the map -/
+/-- the five sections of the extension: map type, number of rows, bytes, 4-aligned -/
+def TablesX.secsX (TX : TablesX) : List (Nat × Nat × Bytes × Bool) :=
+  [(0x2005, TX.encArrays.length, bytesOf TX.encArrays, false),
+   (0x2004, TX.annItems.length, bytesOf TX.annItems, false),
+   (0x1003, TX.annSets.length, bytesOf TX.setItems, true),
+   (0x1002, TX.annRefs.length, bytesOf TX.refItems, true),
+   (0x2006, TX.annDirs.length, bytesOf TX.dirItems, true)]
+
+/-- the extended regions: the base ones and the sections of the extension that are in the map -/
 def regionsX (TX : TablesX) (L : Layout) : List (Nat × Bytes) :=
-  regions TX.base L ++ ((L.sec 0x2005).map fun e => (e.offset, bytesOf TX.encArrays)).toList
+  regions TX.base L ++ TX.secsX.filterMap fun s => (L.sec s.1).map fun e => (e.offset, s.2.2.1)
 
 def buildX (TX : TablesX) (L : Layout) (size : Nat) : Bytes :=
   pokeAll (List.replicate size 0) (regionsX TX L)
@@ -43,8 +51,8 @@ structure ConsistentX (TX : TablesX) (L : Layout) (size : Nat) : Prop where
   disjoint : (regionsX TX L).Pairwise Disjoint
   secs : ∀ s ∈ TX.base.secs, ((L.sec s.1).isNone → s.2.1 = 0) ∧
     ∀ e ∈ L.sec s.1, e.size = s.2.1 ∧ (s.2.2.2 = true → e.offset % 4 = 0)
-  arrays : ((L.sec 0x2005).isNone → TX.encArrays.length = 0) ∧ ∀ e ∈ L.sec 0x2005, e.size = TX.encArrays.length
-  noAnn : NoAnn L
+  secsX : ∀ s ∈ TX.secsX, ((L.sec s.1).isNone → s.2.1 = 0) ∧
+    ∀ e ∈ L.sec s.1, e.size = s.2.1 ∧ (s.2.2.2 = true → e.offset % 4 = 0)
 
 instance (TX : TablesX) (L : Layout) (size : Nat) : Decidable (ConsistentX TX L size) :=
   decidable_of_iff
@@ -53,11 +61,11 @@ instance (TX : TablesX) (L : Layout) (size : Nat) : Decidable (ConsistentX TX L 
      (∀ r ∈ regionsX TX L, r.1 + r.2.length ≤ size) ∧ (regionsX TX L).Pairwise Disjoint ∧
      (∀ s ∈ TX.base.secs, ((L.sec s.1).isNone → s.2.1 = 0) ∧
         ∀ e ∈ L.sec s.1, e.size = s.2.1 ∧ (s.2.2.2 = true → e.offset % 4 = 0)) ∧
-     (((L.sec 0x2005).isNone → TX.encArrays.length = 0) ∧ ∀ e ∈ L.sec 0x2005, e.size = TX.encArrays.length) ∧
-     NoAnn L)
-    ⟨fun ⟨h1, h2, h3, h4, h5, h6, h7, h8, h9, h10, h11⟩ => ⟨h1, h2, h3, h4, h5, h6, h7, h8, h9, h10, h11⟩,
+     (∀ s ∈ TX.secsX, ((L.sec s.1).isNone → s.2.1 = 0) ∧
+        ∀ e ∈ L.sec s.1, e.size = s.2.1 ∧ (s.2.2.2 = true → e.offset % 4 = 0)))
+    ⟨fun ⟨h1, h2, h3, h4, h5, h6, h7, h8, h9, h10⟩ => ⟨h1, h2, h3, h4, h5, h6, h7, h8, h9, h10⟩,
      fun h => ⟨h.mapOff_ne, h.mapOff_lt, h.mapLen, h.nodup, h.members, h.ranges, h.fit, h.disjoint, h.secs,
-       h.arrays, h.noAnn⟩⟩
+       h.secsX⟩⟩
 
 variable {TX : TablesX} {L : Layout} {size : Nat}
 
@@ -65,9 +73,26 @@ theorem buildX_at (hc : ConsistentX TX L size) (r : Nat × Bytes) (hr : r ∈ re
     At (buildX TX L size) r.1 r.2 :=
   pokeAll_at _ _ (by simpa using hc.fit) hc.disjoint r hr
 
+theorem sectionX_of_buildX (hc : ConsistentX TX L size) (s : Nat × Nat × Bytes × Bool) (hs : s ∈ TX.secsX) :
+    Section (buildX TX L size) L s.1 s.2.1 s.2.2.1 s.2.2.2 := by
+  obtain ⟨h0, h1⟩ := hc.secsX s hs
+  unfold Section
+  cases hq : L.sec s.1 with
+  | none => exact h0 (by simp [hq])
+  | some e =>
+    obtain ⟨h2, h3⟩ := h1 e (Option.mem_def.mpr hq)
+    refine ⟨h2, h3, buildX_at hc (e.offset, s.2.2.1) ?_⟩
+    refine List.mem_append_right _ (List.mem_filterMap.mpr ⟨s, hs, ?_⟩)
+    simp [hq]
+
+/-- the rows of the extension are written with valid encodings -/
+structure ItemsOkX (TX : TablesX) : Prop where
+  base : ItemsOk TX.base
+  arrays : ∀ p ∈ TX.encArrays, EncArray p.2 p.1
+  items : ∀ p ∈ TX.annItems, EncAnnItem p.2 p.1.visibility p.1.typeIdx p.1.elems
+
 /-- the extended writer's output encodes the extended tables in the layout it was given -/
-theorem encodesX_buildX (hc : ConsistentX TX L size) (hi : ItemsOk TX.base)
-    (ha : ∀ p ∈ TX.encArrays, EncArray p.2 p.1) : EncodesX (buildX TX L size) L TX where
+theorem encodesX_buildX (hc : ConsistentX TX L size) (hi : ItemsOkX TX) : EncodesX (buildX TX L size) L TX where
   base := by
     have hat : ∀ r ∈ regions TX.base L, At (buildX TX L size) r.1 r.2 :=
       fun r hr => buildX_at hc r (List.mem_append_left _ hr)
@@ -81,10 +106,10 @@ theorem encodesX_buildX (hc : ConsistentX TX L size) (hi : ItemsOk TX.base)
         nodup := hc.nodup
         members := hc.members
         ranges := hc.ranges
-        strItem := hi.strItem
-        tlPad := hi.tlPad
-        cdEnc := hi.cdEnc
-        codeRest := hi.codeRest
+        strItem := hi.base.strItem
+        tlPad := hi.base.tlPad
+        cdEnc := hi.base.cdEnc
+        codeRest := hi.base.codeRest
         strings := hsec (0x2002, _, _, false) (by unfold Tables.secs; repeat (first | exact List.mem_cons_self | apply List.mem_cons_of_mem))
         stringIds := hsec (0x0001, _, _, false) (by unfold Tables.secs; repeat (first | exact List.mem_cons_self | apply List.mem_cons_of_mem))
         typeIds := hsec (0x0002, _, _, true) (by unfold Tables.secs; repeat (first | exact List.mem_cons_self | apply List.mem_cons_of_mem))
@@ -95,20 +120,17 @@ theorem encodesX_buildX (hc : ConsistentX TX L size) (hi : ItemsOk TX.base)
         classData := hsec (0x2000, _, _, false) (by unfold Tables.secs; repeat (first | exact List.mem_cons_self | apply List.mem_cons_of_mem))
         codes := hsec (0x2001, _, _, true) (by unfold Tables.secs; repeat (first | exact List.mem_cons_self | apply List.mem_cons_of_mem))
         classDefs := hsec (0x0006, _, _, true) (by unfold Tables.secs; repeat (first | exact List.mem_cons_self | apply List.mem_cons_of_mem)) }
-  arrays := ha
-  encArrays := by
-    unfold Section
-    cases hq : L.sec 0x2005 with
-    | none => exact hc.arrays.1 (by simp [hq])
-    | some e =>
-      refine ⟨hc.arrays.2 e (Option.mem_def.mpr hq), by simp, buildX_at hc (e.offset, _) ?_⟩
-      exact List.mem_append_right _ (by simp [hq, bytesOf, List.flatMap])
-  noAnn := hc.noAnn
+  arrays := hi.arrays
+  items := hi.items
+  encArrays := sectionX_of_buildX hc (0x2005, _, _, false) (by unfold TablesX.secsX; repeat (first | exact List.mem_cons_self | apply List.mem_cons_of_mem))
+  annItems := sectionX_of_buildX hc (0x2004, _, _, false) (by unfold TablesX.secsX; repeat (first | exact List.mem_cons_self | apply List.mem_cons_of_mem))
+  annSets := sectionX_of_buildX hc (0x1003, _, _, true) (by unfold TablesX.secsX; repeat (first | exact List.mem_cons_self | apply List.mem_cons_of_mem))
+  annRefs := sectionX_of_buildX hc (0x1002, _, _, true) (by unfold TablesX.secsX; repeat (first | exact List.mem_cons_self | apply List.mem_cons_of_mem))
+  annDirs := sectionX_of_buildX hc (0x2006, _, _, true) (by unfold TablesX.secsX; repeat (first | exact List.mem_cons_self | apply List.mem_cons_of_mem))
 
 /-- parse ∘ write for the extended loader -/
-theorem parseDexX_buildX (hwf : WFX TX L) (hc : ConsistentX TX L size) (hi : ItemsOk TX.base)
-    (ha : ∀ p ∈ TX.encArrays, EncArray p.2 p.1) :
+theorem parseDexX_buildX (hwf : WFX TX L) (hc : ConsistentX TX L size) (hi : ItemsOkX TX) :
     parseDexX (buildX TX L size) = .ok (declaredX TX L) :=
-  parseDexX_declared (encodesX_buildX hc hi ha) hwf
+  parseDexX_declared (encodesX_buildX hc hi) hwf
 
 end AgVerif.C05
